@@ -4,43 +4,43 @@
  * parse_value calls (start offset, end offset, verdict). */
 #ifdef VF_CONTAINER_VIEWS
 #define KMAX 8
-struct vf_cont_ghost {
-    cJSON *n0, *n1, *n2, *n3; size_t nit_calls;      /* cJSON_New_Item log */
-    size_t pvs[KMAX], pve[KMAX]; cJSON_bool pvok[KMAX]; cJSON *pvitem[KMAX]; size_t pvdepth[KMAX]; size_t pv_calls; char *pvstr[KMAX]; int pvkind[KMAX];   /* parse_value / parse_string log */
-} g_cl;
-#define g_n0 g_cl.n0
-#define g_n1 g_cl.n1
-#define g_n2 g_cl.n2
-#define g_n3 g_cl.n3
-#define g_nit_calls g_cl.nit_calls
-#define g_pvs g_cl.pvs
-#define g_pve g_cl.pve
-#define g_pvok g_cl.pvok
-#define g_pvitem g_cl.pvitem
-#define g_pvdepth g_cl.pvdepth
-#define g_pv_calls g_cl.pv_calls
-#define g_pvstr g_cl.pvstr
-#define g_pvkind g_cl.pvkind
-#define GHOST_CONT g_cl
+/* logs are arrays of records so that a callee view names exactly ONE element as its assigns target (entries written by earlier
+ * calls stay untouched, which the contracts below rely on) */
+struct vf_pvlog { size_t s, e; cJSON_bool ok; cJSON *item; size_t depth; char *str; int kind; };
+struct vf_pvlog g_pvl[KMAX]; size_t g_pv_calls;
+cJSON *g_nodes[KMAX]; size_t g_nit_calls;
+#define g_n0 g_nodes[0]
+#define g_n1 g_nodes[1]
+#define g_n2 g_nodes[2]
+#define g_n3 g_nodes[3]
+#define g_pvs_(i) g_pvl[i].s
+#define g_pve_(i) g_pvl[i].e
+#define g_pvok_(i) g_pvl[i].ok
+#define g_pvitem_(i) g_pvl[i].item
+#define g_pvdepth_(i) g_pvl[i].depth
+#define g_pvstr_(i) g_pvl[i].str
+#define g_pvkind_(i) g_pvl[i].kind
+#define GHOST_CONT __CPROVER_object_whole(g_pvl), g_pv_calls, __CPROVER_object_whole(g_nodes), g_nit_calls
 #define SLOT_FRESH(slot) (__CPROVER_is_fresh(slot, sizeof(cJSON)) && __CPROVER_pointer_in_range_dfcc(slot, RET, slot) && RET == slot && NODE_ZERO(slot))
 static cJSON *cJSON_New_Item_cv(const internal_hooks * const hooks)
 __CPROVER_requires(g_nit_calls < KMAX)
-__CPROVER_ensures(RET == NULL || (__CPROVER_old(g_nit_calls) == 0 ? SLOT_FRESH(g_n0) : __CPROVER_old(g_nit_calls) == 1 ? SLOT_FRESH(g_n1) : __CPROVER_old(g_nit_calls) == 2 ? SLOT_FRESH(g_n2) : SLOT_FRESH(g_n3)))
+__CPROVER_ensures(RET == NULL || SLOT_FRESH(g_nodes[__CPROVER_old(g_nit_calls)]))
 __CPROVER_ensures(g_nit_calls == __CPROVER_old(g_nit_calls) + (RET != NULL ? 1 : 0))
 __CPROVER_ensures((RET == NULL ? LIVE_SAME : LIVE_IS(RET)) && g_hook_frees == __CPROVER_old(g_hook_frees) && C14_POST(*hooks))
-__CPROVER_assigns(GHOST_CONT, GHOST_ALLOC);
+__CPROVER_assigns(g_nodes[g_nit_calls], g_nit_calls, GHOST_ALLOC);
 
 /* parse_value / parse_string as callees of a container: the usual parse contract plus the call log */
-#define PV_LOG_CV(name, kind, extra_ok) \
+#define PV_LOG_CV(name, kindv, extra_ok) \
 static cJSON_bool name(cJSON * const item, parse_buffer * const input_buffer) \
 __CPROVER_requires(__CPROVER_is_fresh(item, sizeof(cJSON)) && PB_FRESH(input_buffer) && g_pv_calls < KMAX) \
 __CPROVER_ensures(PB_SAME(input_buffer) && input_buffer->depth == __CPROVER_old(input_buffer->depth)) \
 __CPROVER_ensures(RET ==> (input_buffer->offset > __CPROVER_old(input_buffer->offset) && (extra_ok))) \
 __CPROVER_ensures(!RET ==> (item->type == __CPROVER_old(item->type) && item->valuestring == __CPROVER_old(item->valuestring) && item->child == __CPROVER_old(item->child))) \
-__CPROVER_ensures(g_pv_calls == __CPROVER_old(g_pv_calls) + 1 && g_pvs[__CPROVER_old(g_pv_calls)] == __CPROVER_old(input_buffer->offset) && g_pve[__CPROVER_old(g_pv_calls)] == input_buffer->offset && \
-    g_pvok[__CPROVER_old(g_pv_calls)] == RET && g_pvitem[__CPROVER_old(g_pv_calls)] == item && g_pvdepth[__CPROVER_old(g_pv_calls)] == input_buffer->depth && g_pvstr[__CPROVER_old(g_pv_calls)] == item->valuestring && g_pvkind[__CPROVER_old(g_pv_calls)] == (kind) && (RET == 0 || RET == 1)) \
+__CPROVER_ensures(g_pv_calls == __CPROVER_old(g_pv_calls) + 1 && g_pvl[__CPROVER_old(g_pv_calls)].s == __CPROVER_old(input_buffer->offset) && g_pvl[__CPROVER_old(g_pv_calls)].e == input_buffer->offset && \
+    g_pvl[__CPROVER_old(g_pv_calls)].ok == RET && g_pvl[__CPROVER_old(g_pv_calls)].item == item && g_pvl[__CPROVER_old(g_pv_calls)].depth == input_buffer->depth && \
+    g_pvl[__CPROVER_old(g_pv_calls)].str == item->valuestring && g_pvl[__CPROVER_old(g_pv_calls)].kind == (kindv) && (RET == 0 || RET == 1)) \
 __CPROVER_ensures(LIVE_SAME && g_hook_frees == __CPROVER_old(g_hook_frees) && C14_POST(input_buffer->hooks)) \
-__CPROVER_assigns(ITEM_VALUE_FIELDS(item), input_buffer->offset, GHOST_ALLOC, GHOST_STRTOD, GHOST_CONT);
+__CPROVER_assigns(ITEM_VALUE_FIELDS(item), input_buffer->offset, GHOST_ALLOC, GHOST_STRTOD, g_pvl[g_pv_calls], g_pv_calls);
 PV_LOG_CV(parse_value_cv, D_VALUE, 1)
 PV_LOG_CV(parse_string_cv, D_STRING, (item->type == cJSON_String && __CPROVER_is_fresh(item->valuestring, 1)))
 
@@ -69,23 +69,23 @@ __CPROVER_requires(g_nit_calls == 0 && g_pv_calls == 0 && g_del_calls == 0 && HO
 PARSE_COMMON(item, input_buffer)
 /* nesting limit: refused before anything is allocated or parsed; below the limit every recursive call runs one level deeper (stack bound) */
 __CPROVER_ensures(__CPROVER_old(input_buffer->depth) >= CJSON_NESTING_LIMIT ==> (!RET && g_nit_calls == 0 && g_pv_calls == 0 && input_buffer->offset == __CPROVER_old(input_buffer->offset))) /*@C01 C03*/
-__CPROVER_ensures((g_pv_calls >= 1 ==> g_pvdepth[0] == __CPROVER_old(input_buffer->depth) + 1) && (g_pv_calls >= 2 ==> g_pvdepth[1] == __CPROVER_old(input_buffer->depth) + 1) && (g_pv_calls >= 3 ==> g_pvdepth[2] == __CPROVER_old(input_buffer->depth) + 1)) /*@C01*/
+__CPROVER_ensures((g_pv_calls >= 1 ==> g_pvl[0].depth == __CPROVER_old(input_buffer->depth) + 1) && (g_pv_calls >= 2 ==> g_pvl[1].depth == __CPROVER_old(input_buffer->depth) + 1) && (g_pv_calls >= 3 ==> g_pvl[2].depth == __CPROVER_old(input_buffer->depth) + 1)) /*@C01*/
 /* accepted text starts with '[' and ends with ']' ; the parse end is just behind the ']' */
 __CPROVER_ensures(RET ==> (AT0(input_buffer) == '[' && input_buffer->content[input_buffer->offset - 1] == ']' && item->type == cJSON_Array)) /*@C02 C03*/
 /* one node and one value parse per element, in input order, each on its own node; any element failure fails the array */
-__CPROVER_ensures(RET ==> (g_pv_calls == g_nit_calls && (g_pv_calls < 1 || (g_pvok[0] && g_pvitem[0] == g_n0)) && (g_pv_calls < 2 || (g_pvok[1] && g_pvitem[1] == g_n1)) && (g_pv_calls < 3 || (g_pvok[2] && g_pvitem[2] == g_n2)))) /*@C02 C03*/
-__CPROVER_ensures(((g_pv_calls >= 1 && !g_pvok[0]) || (g_pv_calls >= 2 && !g_pvok[1]) || (g_pv_calls >= 3 && !g_pvok[2])) ==> !RET) /*@C03*/
+__CPROVER_ensures(RET ==> (g_pv_calls == g_nit_calls && (g_pv_calls < 1 || (g_pvl[0].ok && g_pvl[0].item == g_n0)) && (g_pv_calls < 2 || (g_pvl[1].ok && g_pvl[1].item == g_n1)) && (g_pv_calls < 3 || (g_pvl[2].ok && g_pvl[2].item == g_n2)))) /*@C02 C03*/
+__CPROVER_ensures(((g_pv_calls >= 1 && !g_pvl[0].ok) || (g_pv_calls >= 2 && !g_pvl[1].ok) || (g_pv_calls >= 3 && !g_pvl[2].ok)) ==> !RET) /*@C03*/
 /* children are linked in input order into a well-formed sibling chain (C06 shape), nothing else hangs on the item */
 __CPROVER_ensures((RET && g_pv_calls == 0) ==> item->child == NULL) /*@C02*/
 __CPROVER_ensures((RET && g_pv_calls == 1) ==> (item->child == g_n0 && NODES_LINKED_1)) /*@C02 C01*/
 __CPROVER_ensures((RET && g_pv_calls == 2) ==> (item->child == g_n0 && NODES_LINKED_2)) /*@C02 C01*/
 __CPROVER_ensures((RET && g_pv_calls == 3) ==> (item->child == g_n0 && NODES_LINKED_3)) /*@C02 C01*/
 /* element i starts right after '[' or ',' plus whitespace; between element i and i+1 there is only whitespace and a comma; behind the last only whitespace */
-__CPROVER_ensures((RET && g_pv_calls >= 1 && g_k > __CPROVER_old(input_buffer->offset) && g_k < g_pvs[0]) ==> input_buffer->content[g_k] <= 32) /*@C02 C03*/
-__CPROVER_ensures((RET && g_pv_calls >= 2 && g_k >= g_pve[0] && g_k < g_pvs[1]) ==> (input_buffer->content[g_k] <= 32 || input_buffer->content[g_k] == ',')) /*@C02 C03*/
-__CPROVER_ensures((RET && g_pv_calls >= 3 && g_k >= g_pve[1] && g_k < g_pvs[2]) ==> (input_buffer->content[g_k] <= 32 || input_buffer->content[g_k] == ',')) /*@C02 C03*/
-__CPROVER_ensures((RET && g_pv_calls >= 2) ==> g_pvs[1] > g_pve[0]) /*@C03*/
-__CPROVER_ensures((RET && g_pv_calls >= 1 && g_pv_calls <= 3 && g_k >= g_pve[g_pv_calls - 1] && g_k + 1 < input_buffer->offset) ==> input_buffer->content[g_k] <= 32) /*@C02 C03*/
+__CPROVER_ensures((RET && g_pv_calls >= 1 && g_k > __CPROVER_old(input_buffer->offset) && g_k < g_pvl[0].s) ==> input_buffer->content[g_k] <= 32) /*@C02 C03*/
+__CPROVER_ensures((RET && g_pv_calls >= 2 && g_k >= g_pvl[0].e && g_k < g_pvl[1].s) ==> (input_buffer->content[g_k] <= 32 || input_buffer->content[g_k] == ',')) /*@C02 C03*/
+__CPROVER_ensures((RET && g_pv_calls >= 3 && g_k >= g_pvl[1].e && g_k < g_pvl[2].s) ==> (input_buffer->content[g_k] <= 32 || input_buffer->content[g_k] == ',')) /*@C02 C03*/
+__CPROVER_ensures((RET && g_pv_calls >= 2) ==> g_pvl[1].s > g_pvl[0].e) /*@C03*/
+__CPROVER_ensures((RET && g_pv_calls >= 1 && g_pv_calls <= 3 && g_k >= g_pvl[g_pv_calls - 1].e && g_k + 1 < input_buffer->offset) ==> input_buffer->content[g_k] <= 32) /*@C02 C03*/
 __CPROVER_ensures((RET && g_pv_calls == 0 && g_k > __CPROVER_old(input_buffer->offset) && g_k + 1 < input_buffer->offset) ==> input_buffer->content[g_k] <= 32) /*@C02 C03*/
 /* failure: the partial chain is deleted exactly once (never on success) */
 __CPROVER_ensures(RET ==> g_del_calls == 0) /*@C07*/
@@ -95,29 +95,29 @@ __CPROVER_ensures(RET ==> (g_live == NULL || g_live == (void*)g_n0 || g_live == 
 __CPROVER_assigns(PARSE_ASSIGNS(item, input_buffer), GHOST_CONT, GHOST_DEL);
 
 /* ------------------------------------------------------------------ parse_object (members <= 2 in the quick tier: two callee calls per member) */
-#define MEMBER_OK(j, node) (g_pvkind[2*(j)] == D_STRING && g_pvok[2*(j)] && g_pvitem[2*(j)] == (node) && g_pvkind[2*(j)+1] == D_VALUE && g_pvok[2*(j)+1] && g_pvitem[2*(j)+1] == (node) && \
-    (node)->string == g_pvstr[2*(j)] && (node)->string != NULL)
+#define MEMBER_OK(j, node) (g_pvl[2*(j)].kind == D_STRING && g_pvl[2*(j)].ok && g_pvl[2*(j)].item == (node) && g_pvl[2*(j)+1].kind == D_VALUE && g_pvl[2*(j)+1].ok && g_pvl[2*(j)+1].item == (node) && \
+    (node)->string == g_pvl[2*(j)].str && (node)->string != NULL)
 static cJSON_bool parse_object(cJSON * const item, parse_buffer * const input_buffer)
 __CPROVER_requires(__CPROVER_is_fresh(item, sizeof(cJSON)) && PB_FRESH(input_buffer))
 __CPROVER_requires(g_nit_calls == 0 && g_pv_calls == 0 && g_del_calls == 0 && HOOKS_OK(global_hooks) && g_live == NULL)
 PARSE_COMMON(item, input_buffer)
 __CPROVER_ensures(__CPROVER_old(input_buffer->depth) >= CJSON_NESTING_LIMIT ==> (!RET && g_nit_calls == 0 && g_pv_calls == 0 && input_buffer->offset == __CPROVER_old(input_buffer->offset))) /*@C01 C03*/
-__CPROVER_ensures((g_pv_calls >= 2 ==> g_pvdepth[1] == __CPROVER_old(input_buffer->depth) + 1) && (g_pv_calls >= 4 ==> g_pvdepth[3] == __CPROVER_old(input_buffer->depth) + 1)) /*@C01*/
+__CPROVER_ensures((g_pv_calls >= 2 ==> g_pvl[1].depth == __CPROVER_old(input_buffer->depth) + 1) && (g_pv_calls >= 4 ==> g_pvl[3].depth == __CPROVER_old(input_buffer->depth) + 1)) /*@C01*/
 __CPROVER_ensures(RET ==> (__CPROVER_old(input_buffer->offset) < input_buffer->length && AT0(input_buffer) == '{' && input_buffer->content[input_buffer->offset - 1] == '}' && item->type == cJSON_Object)) /*@C02 C03*/
 /* per member: the key is parsed as a string into the node and becomes its (owned) key, then the value is parsed into the same node; any failure fails the object */
 __CPROVER_ensures(RET ==> (g_pv_calls == 2 * g_nit_calls && (g_nit_calls < 1 || MEMBER_OK(0, g_n0)) && (g_nit_calls < 2 || MEMBER_OK(1, g_n1)))) /*@C02 C03*/
-__CPROVER_ensures(((g_pv_calls >= 1 && !g_pvok[0]) || (g_pv_calls >= 2 && !g_pvok[1]) || (g_pv_calls >= 3 && !g_pvok[2]) || (g_pv_calls >= 4 && !g_pvok[3])) ==> !RET) /*@C03*/
+__CPROVER_ensures(((g_pv_calls >= 1 && !g_pvl[0].ok) || (g_pv_calls >= 2 && !g_pvl[1].ok) || (g_pv_calls >= 3 && !g_pvl[2].ok) || (g_pv_calls >= 4 && !g_pvl[3].ok)) ==> !RET) /*@C03*/
 __CPROVER_ensures((RET && g_nit_calls == 0) ==> item->child == NULL) /*@C02*/
 __CPROVER_ensures((RET && g_nit_calls == 1) ==> (item->child == g_n0 && NODES_LINKED_1)) /*@C02 C01*/
 __CPROVER_ensures((RET && g_nit_calls == 2) ==> (item->child == g_n0 && NODES_LINKED_2)) /*@C02 C01*/
 /* key and value are separated by whitespace and a colon; members by whitespace and a comma; only whitespace before the closing brace */
-__CPROVER_ensures((RET && g_nit_calls >= 1 && g_k > __CPROVER_old(input_buffer->offset) && g_k < g_pvs[0]) ==> input_buffer->content[g_k] <= 32) /*@C02 C03*/
-__CPROVER_ensures((RET && g_nit_calls >= 1 && g_k >= g_pve[0] && g_k < g_pvs[1]) ==> (input_buffer->content[g_k] <= 32 || input_buffer->content[g_k] == ':')) /*@C02 C03*/
-__CPROVER_ensures((RET && g_nit_calls >= 1) ==> g_pvs[1] > g_pve[0]) /*@C03*/
-__CPROVER_ensures((RET && g_nit_calls >= 2 && g_k >= g_pve[1] && g_k < g_pvs[2]) ==> (input_buffer->content[g_k] <= 32 || input_buffer->content[g_k] == ',')) /*@C02 C03*/
-__CPROVER_ensures((RET && g_nit_calls >= 2) ==> g_pvs[2] > g_pve[1]) /*@C03*/
-__CPROVER_ensures((RET && g_nit_calls >= 2 && g_k >= g_pve[2] && g_k < g_pvs[3]) ==> (input_buffer->content[g_k] <= 32 || input_buffer->content[g_k] == ':')) /*@C02 C03*/
-__CPROVER_ensures((RET && g_nit_calls >= 1 && g_nit_calls <= 2 && g_k >= g_pve[2 * g_nit_calls - 1] && g_k + 1 < input_buffer->offset) ==> input_buffer->content[g_k] <= 32) /*@C02 C03*/
+__CPROVER_ensures((RET && g_nit_calls >= 1 && g_k > __CPROVER_old(input_buffer->offset) && g_k < g_pvl[0].s) ==> input_buffer->content[g_k] <= 32) /*@C02 C03*/
+__CPROVER_ensures((RET && g_nit_calls >= 1 && g_k >= g_pvl[0].e && g_k < g_pvl[1].s) ==> (input_buffer->content[g_k] <= 32 || input_buffer->content[g_k] == ':')) /*@C02 C03*/
+__CPROVER_ensures((RET && g_nit_calls >= 1) ==> g_pvl[1].s > g_pvl[0].e) /*@C03*/
+__CPROVER_ensures((RET && g_nit_calls >= 2 && g_k >= g_pvl[1].e && g_k < g_pvl[2].s) ==> (input_buffer->content[g_k] <= 32 || input_buffer->content[g_k] == ',')) /*@C02 C03*/
+__CPROVER_ensures((RET && g_nit_calls >= 2) ==> g_pvl[2].s > g_pvl[1].e) /*@C03*/
+__CPROVER_ensures((RET && g_nit_calls >= 2 && g_k >= g_pvl[2].e && g_k < g_pvl[3].s) ==> (input_buffer->content[g_k] <= 32 || input_buffer->content[g_k] == ':')) /*@C02 C03*/
+__CPROVER_ensures((RET && g_nit_calls >= 1 && g_nit_calls <= 2 && g_k >= g_pvl[2 * g_nit_calls - 1].e && g_k + 1 < input_buffer->offset) ==> input_buffer->content[g_k] <= 32) /*@C02 C03*/
 __CPROVER_ensures((RET && g_nit_calls == 0 && g_k > __CPROVER_old(input_buffer->offset) && g_k + 1 < input_buffer->offset) ==> input_buffer->content[g_k] <= 32) /*@C02 C03*/
 __CPROVER_ensures(RET ==> g_del_calls == 0) /*@C07*/
 __CPROVER_ensures((!RET && g_nit_calls >= 1) ==> (g_del_calls == 1 && g_del_arg == g_n0)) /*@C03 C07 C08*/
